@@ -841,3 +841,156 @@ Proof.
   revert lo. induction n as [|n IH]; intros lo j; cbn [zrange In]; [lia|].
   rewrite IH. lia.
 Qed.
+
+(* ------------------------------------------------------------ every flip derives from a value that is NOT accessible *)
+Lemma try_bit_flips_inaccessible a reg br ctx rs op f :
+  In f (try_bit_flips a reg br ctx rs op) -> inaccessible rs op a.
+Proof.
+  unfold try_bit_flips, inaccessible. intros Hin mi Hl. rewrite Hl in Hin.
+  destruct (possibly_allowed op mi); [destruct Hin|reflexivity].
+Qed.
+
+Lemma check_ok_strong c address adj op ctx iregs rs f :
+  In f (check_for_bitflips c address adj op ctx iregs rs) ->
+  exists a, examined c address adj ctx iregs f a /\
+            flip_ok a (f_reg f) rs op (br_lo (expected_br c adj)) (br_hi (expected_br c adj)) f /\
+            inaccessible rs op a.
+Proof.
+  unfold check_for_bitflips, examined.
+  assert (Hgen : forall a br, (br = expected_br c adj) ->
+     (a = match adj with AdjNonCanonical v => v | _ => address end) ->
+     (c = CpuAmd64 \/ c = CpuOther64) -> adj <> AdjNullOffset ->
+     In f (try_bit_flips a None br ctx rs op ++
+           match ctx with None => [] | Some _ => flat_map (fun rv => try_bit_flips (snd rv) (Some (fst rv)) br ctx rs op) iregs end) ->
+     exists a0, ((c = CpuAmd64 \/ c = CpuOther64) /\ adj <> AdjNullOffset /\
+       ((f_reg f = None /\ a0 = match adj with AdjNonCanonical v => v | _ => address end) \/
+        (exists rid, f_reg f = Some rid /\ In (rid, a0) iregs /\ ctx <> None))) /\
+       flip_ok a0 (f_reg f) rs op (br_lo (expected_br c adj)) (br_hi (expected_br c adj)) f /\ inaccessible rs op a0).
+  { intros a br Hbr Ha Hc Hadj Hin. apply in_app_or in Hin. destruct Hin as [Hin|Hin].
+    - pose proof (try_bit_flips_inaccessible _ _ _ _ _ _ _ Hin) as Hna.
+      apply try_bit_flips_ok in Hin. pose proof Hin as [_ [_ Hr]]. exists a. rewrite Hr. subst br.
+      split; [|split; assumption]. repeat split; try assumption. left. split; [reflexivity|assumption].
+    - destruct ctx as [cx|]; [|destruct Hin]. apply in_flat_map in Hin. destruct Hin as [[rid v] [Hiv Hin]].
+      cbn [fst snd] in Hin. pose proof (try_bit_flips_inaccessible _ _ _ _ _ _ _ Hin) as Hna.
+      apply try_bit_flips_ok in Hin. pose proof Hin as [_ [_ Hr]]. exists v. rewrite Hr. subst br.
+      split; [|split; assumption]. repeat split; try assumption. right. exists rid. repeat split; [assumption|discriminate]. }
+  destruct c; try (intros []).
+  - destruct adj as [|v|]; try (intros []); intros Hin;
+      (eapply Hgen; [reflexivity|reflexivity|left; reflexivity|discriminate|exact Hin]).
+  - destruct adj as [|v|]; try (intros []); intros Hin;
+      (eapply Hgen; [reflexivity|reflexivity|right; reflexivity|discriminate|exact Hin]).
+Qed.
+
+Section PipelineInaccessible.
+  Variable analysis : pcontext -> option op_analysis.
+
+  Lemma pipeline_examined_inaccessible c os r address pc rs f :
+    In f (pipeline analysis c os r address pc rs) ->
+    exists a, examined_by analysis c os r address pc f a /\ inaccessible rs (memop_of_reason r) a.
+  Proof.
+    unfold pipeline. rewrite check_src_refines. intros Hin.
+    apply check_ok_strong in Hin. destruct Hin as [a [[Hc [Hadj Hex]] [_ Hna]]].
+    exists a. split; [|exact Hna].
+    destruct Hex as [[Hr Ha]|[rid [Hr [Hin Hctx]]]].
+    - left. split; [exact Hr|]. rewrite Ha. destruct (pipeline_adj analysis c os r address pc); reflexivity.
+    - right. unfold pipeline_iregs, the_analysis in Hin. destruct pc as [x|]; [|destruct Hin].
+      destruct (analysis x) as [oa|] eqn:Ea; [|destruct Hin].
+      apply iregs_of_in in Hin. destruct Hin as [Hi Hg].
+      exists rid, x, oa. repeat split; assumption.
+  Qed.
+
+End PipelineInaccessible.
+
+(* a value inside a MemoryInfoList record that intersects no other record and whose protection permits the access IS accessible *)
+Lemma record_accessible op l1 base size prot l2 a :
+  u64_recs (l1 ++ (base, size, prot) :: l2) ->
+  size <> 0 -> base + size < two64 -> base <= a < base + size ->
+  info_allows op prot = true ->
+  (forall b s p, In (b, s, p) (l1 ++ l2) -> s <> 0 -> b + s < two64 -> b + s <= base \/ base + size <= b) ->
+  ~ inaccessible (regions_of_info (l1 ++ (base, size, prot) :: l2)) op a.
+Proof.
+  intros Hl Hs Hb Ha Hp Hiso Hna.
+  set (mi := region_of_info base size prot).
+  assert (Hr : rg_range mi = Some (base, base + size - 1)).
+  { unfold mi, region_of_info. cbn [rg_range]. unfold mk_range, checked_add.
+    destruct (size =? 0) eqn:E0; [lia|]. rewrite two64_val in Hb. destruct (base + size <? 2 ^ 64) eqn:E1; [reflexivity|lia]. }
+  assert (Hlk : lookup_region (regions_of_info (l1 ++ (base, size, prot) :: l2)) a = Some mi).
+  { unfold regions_of_info. rewrite map_app. cbn [map].
+    apply (lookup_isolated _ mi _ (base, base + size - 1)).
+    - pose proof (wf_regions_info _ Hl) as W. unfold regions_of_info in W. rewrite map_app in W. exact W.
+    - exact Hr.
+    - unfold contains. cbn [fst snd]. apply andb_true_intro. split; lia.
+    - intros mi' r' Hin' Hr'. rewrite <- map_app in Hin'. apply in_map_iff in Hin'. destruct Hin' as [[[b s] p] [<- Hin']].
+      unfold region_of_info in Hr'. cbn [rg_range] in Hr'. unfold mk_range, checked_add in Hr'.
+      destruct (s =? 0) eqn:E0; [discriminate|]. destruct (b + s <? 2 ^ 64) eqn:E1; [|discriminate].
+      inversion Hr'; subst r'. unfold intersects. cbn [fst snd].
+      assert (Hs0 : s <> 0) by lia.
+      assert (Hb0 : b + s < two64) by (rewrite two64_val; lia).
+      pose proof (Hiso b s p Hin' Hs0 Hb0) as Hd.
+      apply andb_false_iff. destruct Hd; [left|right]; lia. }
+  specialize (Hna mi Hlk). unfold mi in Hna. destruct op; cbn in Hna, Hp; congruence.
+Qed.
+
+(* ------------------------------------------------------------ the property, clause by clause, at the raw-record level *)
+Section TheProperty.
+  Variable analysis : pcontext -> option op_analysis.
+
+  Lemma the_property arch platform_id e pc l :
+    u64_recs l ->
+    0 <= er_address e < two64 -> 0 <= er_info1 e < two64 ->
+    (forall x id v, pc = Some x -> get_register x id = Some v -> 0 <= v < two64) ->
+    (forall x oa ai, analysis x = Some oa -> (exists a, oa_addresses oa = Some a /\ In ai a) -> 0 <= ai_addr ai < two64) ->
+    let c := dump_cpu arch in
+    let os := os_class (dump_os platform_id) in
+    let r := dump_reason arch platform_id e in
+    let address := dump_address arch platform_id e in
+    let flips := dump_pipeline analysis arch platform_id e pc (regions_of_info l) in
+    (* each reported flip: one bit of the platform's range away from an examined value that is not itself accessible;
+       null or inside a record permitting the access; confidence in [0,1] *)
+    (forall f, In f flips ->
+       exists a j, examined_by analysis c os r address pc f a /\
+                   inaccessible (regions_of_info l) (memop_of_reason r) a /\
+                   br_lo (pipeline_br analysis c os r address pc) <= j < br_hi (pipeline_br analysis c os r address pc) /\
+                   f_addr f = Z.lxor a (2 ^ j) /\ 0 <= f_addr f < two64 /\
+                   (f_addr f = 0 \/
+                    exists base size prot, In (base, size, prot) l /\ size <> 0 /\ base + size < two64 /\
+                                           base <= f_addr f < base + size /\ info_allows (memop_of_reason r) prot = true) /\
+                   le_b32 (f32 0) (confidence (f_det f)) = true /\ le_b32 (confidence (f_det f)) (f32 F32_ONE_bits) = true) /\
+    (* none for a recognised null pointer plus offset *)
+    (forall x oa, pc = Some x -> analysis x = Some oa -> has_null_flag oa -> flips = []) /\
+    (* none for 32-bit, ARM64 / ARM64_OLD and unknown architectures *)
+    (~ (arch = 9 \/ arch = 32770 \/ arch = 32772) -> flips = []).
+  Proof.
+    intros Hl Hea Hei Hregs Hacc c os r address flips.
+    assert (Haddr : 0 <= address < two64).
+    { unfold address, dump_address, crash_address.
+      assert (H0 : 0 <= (match dump_os platform_id with
+                         | GOsWindows => if ((er_code e =? WIN_EXCEPTION_ACCESS_VIOLATION) || (er_code e =? WIN_EXCEPTION_IN_PAGE_ERROR)) && (2 <=? er_nparams e)
+                                         then er_info1 e else er_address e
+                         | _ => er_address e end) < two64).
+      { destruct (dump_os platform_id); try exact Hea.
+        destruct (((er_code e =? WIN_EXCEPTION_ACCESS_VIOLATION) || (er_code e =? WIN_EXCEPTION_IN_PAGE_ERROR)) && (2 <=? er_nparams e)); assumption. }
+      destruct (pointer_width (dump_cpu arch)); try exact H0.
+      pose proof (Z.mod_pos_bound (match dump_os platform_id with
+                         | GOsWindows => if ((er_code e =? WIN_EXCEPTION_ACCESS_VIOLATION) || (er_code e =? WIN_EXCEPTION_IN_PAGE_ERROR)) && (2 <=? er_nparams e)
+                                         then er_info1 e else er_address e
+                         | _ => er_address e end) 4294967296 ltac:(lia)) as Hm.
+      rewrite two64_val. lia. }
+    split; [|split].
+    - intros f Hin. unfold flips, dump_pipeline in Hin. fold c os r address in Hin.
+      destruct (pipeline_examined_inaccessible analysis _ _ _ _ _ _ _ Hin) as [a0 [Hex0 Hna0]].
+      destruct (pipeline_flip_info analysis c os r address pc l f Hl Haddr Hregs Hacc Hin)
+        as [a [j [Hex [Hj [Hf [Hu Hm]]]]]].
+      (* the two witnesses are the same value: both are determined by f_reg f *)
+      assert (Heq : a0 = a).
+      { destruct Hex0 as [[Hr0 Ha0]|[id0 [x0 [oa0 [Hr0 [Hp0 [Han0 [_ Hg0]]]]]]]];
+        destruct Hex as [[Hr1 Ha1]|[id1 [x1 [oa1 [Hr1 [Hp1 [Han1 [_ Hg1]]]]]]]].
+        - congruence.
+        - rewrite Hr0 in Hr1. discriminate.
+        - rewrite Hr0 in Hr1. discriminate.
+        - rewrite Hr0 in Hr1. inversion Hr1; subst id1. rewrite Hp0 in Hp1. inversion Hp1; subst x1. congruence. }
+      subst a0. exists a, j. repeat split; try assumption; try apply Hj; try apply Hu; apply (confidence_01_split (f_det f)).
+    - intros x oa Hpc Han Hn. unfold flips, dump_pipeline. subst pc. eapply pipeline_none_null; eassumption.
+    - intros Ha. unfold flips. apply dump_none_platform. exact Ha.
+  Qed.
+End TheProperty.
